@@ -3,7 +3,8 @@
                     (None: the parser rejects the declaration); Device/DServo.v
    dsrun d ops      the Servo.write / Servo.writeMicroseconds calls and the printed read()/read_us() values of the firmware
    servo_ctor a     the host constructor; hsrun pin h ops the host class's completed writes as library commands
-                    (angle level a -> write(nearest integer of a), pulse level p -> writeMicroseconds(nearest integer of p)),
+                    (angle level a -> write(nearest integer of a), pulse level p -> writeMicroseconds(nearest integer of p);
+                    rnear: nearest integer, halves away from zero),
                     its getter values, and whether every call returned *)
 From Coq Require Import ZArith QArith Qabs List Bool.
 From RV Require Import Base.Wire Base.NumM Host.Servo Device.DMotor Device.DServo Proofs.DServoP.
@@ -11,36 +12,37 @@ Import ListNotations.
 Open Scope Q_scope.
 
 (* clamp clause, for ALL declarations the parser accepts, ALL commands, values and histories: every integer handed to
-   Servo.write / writeMicroseconds is the rounding static_cast<int>(x + 0.5f) of a value x within the configured bounds,
-   and the shadow angle / pulse (the getter values) stay within the configured bounds *)
+   Servo.write / writeMicroseconds is the rounding cround (if (x < 0.0f) x -= 1.0f; static_cast<int>(x + 0.5f)) of a value x
+   within the configured bounds, and the shadow angle / pulse (the getter values) stay within the configured bounds *)
 Theorem C04_servo_clamp : forall a d evs ops, ds_decl a = Some (d, evs) ->
   Forall (sdev_ok d) (fst (dsrun d ops)) /\ dsinv (dsfinal d ops) /\ same_bounds d (dsfinal d ops).
 Proof. exact servo_clamp. Qed.
 Print Assumptions C04_servo_clamp.
 
-(* ... and with whole-number bounds whose maximum is not negative the integer itself is within the bounds *)
-Theorem C04_servo_clamp_whole_angle : forall d pin z (m M : Z), ds_min_a d == inject_Z m -> ds_max_a d == inject_Z M -> (0 <= M)%Z ->
+(* ... and with whole-number bounds (of either sign) the integer itself is within the bounds *)
+Theorem C04_servo_clamp_whole_angle : forall d pin z (m M : Z), ds_min_a d == inject_Z m -> ds_max_a d == inject_Z M ->
   sdev_ok d (SWriteDeg pin z) -> (m <= z <= M)%Z.
 Proof. exact servo_clamp_int_deg. Qed.
 Print Assumptions C04_servo_clamp_whole_angle.
 
-Theorem C04_servo_clamp_whole_pulse : forall d pin z (m M : Z), ds_min_p d == inject_Z m -> ds_max_p d == inject_Z M -> (0 <= M)%Z ->
+Theorem C04_servo_clamp_whole_pulse : forall d pin z (m M : Z), ds_min_p d == inject_Z m -> ds_max_p d == inject_Z M ->
   sdev_ok d (SWriteMicros pin z) -> (m <= z <= M)%Z.
 Proof. exact servo_clamp_int_us. Qed.
 Print Assumptions C04_servo_clamp_whole_pulse.
 
-(* device = host.  Guards: the declaration's pulse bounds are whole numbers (decl_ok); every command is within the configured
-   bounds (servo_range_flags: the host raises otherwise).  Then the parser accepts the declaration, setup() attaches with the
-   host's pulse bounds and parks at the minimum pulse, every read()/read_us() prints the host's value, no host call raises;
-   and if moreover every commanded value is >= -1/2 (servo_level_ok) the library receives, call by call, the nearest integer
-   of the host's angle / pulse level *)
+(* device = host.  Guards: the declaration's arguments are numbers (decl_ok: the literals of the modelled declarations; whole or
+   fractional, of either sign); every command is within the configured bounds (servo_range_flags: the host raises otherwise).
+   Then the parser accepts the declaration, setup() attaches with the nearest whole microseconds of the host's pulse bounds and
+   parks at the minimum pulse, every read()/read_us() prints the host's value, no host call raises, and the library receives,
+   call by call, the nearest integer of the host's angle / pulse level - also for negative levels (this replaces the two
+   refutations C04_servo_negative_angle_refuted and C04_servo_fractional_pulse_bound_refuted of the unrepaired code) *)
 Theorem C04_servo_partial : forall a h ops, decl_ok a = true -> servo_ctor a = inl h ->
   forallb (fun b => b) (servo_range_flags h ops) = true ->
   exists d evs, ds_decl a = Some (d, evs) /\
-    evs = [SAttach (ds_pin d) (ctrunc (min_p h)) (ctrunc (max_p h)); SWriteMicros (ds_pin d) (ctrunc (min_p h))] /\
+    evs = [SAttach (ds_pin d) (rnear (min_p h)) (rnear (max_p h)); SWriteMicros (ds_pin d) (rnear (min_p h))] /\
     snd (dsrun d ops) = snd (fst (hsrun (ds_pin d) h ops)) /\
     snd (hsrun (ds_pin d) h ops) = true /\
-    (forallb servo_level_ok ops = true -> fst (dsrun d ops) = fst (fst (hsrun (ds_pin d) h ops))).
+    fst (dsrun d ops) = fst (fst (hsrun (ds_pin d) h ops)).
 Proof. exact servo_device_eq_host. Qed.
 Print Assumptions C04_servo_partial.
 
@@ -49,36 +51,56 @@ Theorem C04_servo_level_nearest : forall q, Qabs (inject_Z (rnear q) - q) <= 1 #
 Proof. exact rnear_nearest. Qed.
 Print Assumptions C04_servo_level_nearest.
 
-(* refutation outside the level guard: Servo(9, min_angle=-90, max_angle=90).write(-10) - the firmware commands
-   Servo.write(-9) (static_cast<int>(-9.5f) truncates toward zero), the host's angle is -10; read() still prints -10 *)
-Theorem C04_servo_negative_angle_refuted : exists a h ops d evs,
-  servo_ctor a = inl h /\ decl_ok a = true /\ forallb (fun b => b) (servo_range_flags h ops) = true /\
-  ds_decl a = Some (d, evs) /\ fst (dsrun d ops) <> fst (fst (hsrun (ds_pin d) h ops)).
-Proof.
-  destruct servo_negative_angle_differs as (C & F & d & evs & D & E1 & E2 & _).
-  exists neg_args, neg_host, neg_ops, d, evs. repeat split; try assumption; try reflexivity.
-  assert (P : ds_pin d = 9%Z) by (vm_compute in D; injection D as <- _; reflexivity).
-  rewrite P, E1, E2. discriminate.
-Qed.
-Print Assumptions C04_servo_negative_angle_refuted.
+(* the positive theorem the negative-angle refutation contradicted: the device's rounding
+   if (x < 0.0f) x -= 1.0f; static_cast<int>(x + 0.5f)  IS the nearest integer, for ALL x (negative ones included) *)
+Theorem C04_servo_device_rounds_to_nearest : forall x, cround x = rnear x /\ Qabs (inject_Z (cround x) - x) <= 1 # 2.
+Proof. intro x. split; [apply cround_rnear|apply cround_nearest]. Qed.
+Print Assumptions C04_servo_device_rounds_to_nearest.
 
-(* refutation outside the declaration guard: Servo(9, min_pulse_us=544.5).read_us() - the parser truncates the bound to 544 *)
-Theorem C04_servo_fractional_pulse_bound_refuted : exists a h d evs,
-  servo_ctor a = inl h /\ ds_decl a = Some (d, evs) /\
-  snd (dsrun d [SReadUs]) <> snd (fst (hsrun (ds_pin d) h [SReadUs])).
-Proof.
-  destruct servo_fractional_bound_differs as (C & d & evs & D & E1 & E2).
-  exists frac_args, frac_host, d, evs. repeat split; try assumption.
-  assert (P : ds_pin d = 9%Z) by (vm_compute in D; injection D as <- _; reflexivity).
-  rewrite P, E1, E2. discriminate.
-Qed.
-Print Assumptions C04_servo_fractional_pulse_bound_refuted.
+(* ... and the integer the emitter computes for attach() from a float literal is the same nearest integer *)
+Theorem C04_servo_attach_rounds_to_nearest : forall v, pyround v = rnear v.
+Proof. exact pyround_rnear. Qed.
+Print Assumptions C04_servo_attach_rounds_to_nearest.
+
+(* the positive theorem the fractional-bound refutation contradicted: whatever numbers the declaration gives (whole or not),
+   the firmware's bounds, angle and pulse after the declaration ARE the host object's *)
+Theorem C04_servo_decl_state : forall a h d evs, decl_ok a = true -> servo_ctor a = inl h -> ds_decl a = Some (d, evs) -> srel h d.
+Proof. exact servo_decl_state. Qed.
+Print Assumptions C04_servo_decl_state.
+
+(* ... and the parser accepts exactly the declarations the host constructor accepts (it used to compare the truncated pulse bounds) *)
+Theorem C04_servo_decl_accepts : forall a, decl_ok a = true ->
+  ((exists h, servo_ctor a = inl h) <-> (exists d evs, ds_decl a = Some (d, evs))).
+Proof. exact servo_decl_accepts. Qed.
+Print Assumptions C04_servo_decl_accepts.
+
+(* the witness of the former finding F-C04-servo-negative-angle-rounding, with more negative angles (ties included):
+   Servo(9, min_angle=-90, max_angle=90).write(-10) commands Servo.write(-10), write(-10.5) -11, write(-0.25) 0, write(-0.5) -1 *)
+Example C04_servo_negative_angle_agrees :
+  decl_ok neg_args = true /\ servo_ctor neg_args = inl neg_host /\
+  forallb (fun b => b) (servo_range_flags neg_host neg_ops) = true /\
+  (exists d evs, ds_decl neg_args = Some (d, evs) /\
+     fst (dsrun d neg_ops) = [SWriteDeg 9 (-10); SWriteDeg 9 (-11); SWriteDeg 9 0; SWriteDeg 9 (-1); SWriteDeg 9 (-1)] /\
+     fst (fst (hsrun 9 neg_host neg_ops)) = fst (dsrun d neg_ops) /\
+     nth 1 (snd (dsrun d neg_ops)) SGNone = SGFloat (-10 # 1)).
+Proof. exact servo_negative_angle_agrees. Qed.
+Print Assumptions C04_servo_negative_angle_agrees.
+
+(* the witness of the former finding F-C04-servo-fractional-pulse-bound: Servo(9, min_pulse_us=544.5) attaches with 545..2400,
+   read_us() is 544.5 on both sides, and after write(90) 1472.25 on both sides *)
+Example C04_servo_fractional_pulse_bound_agrees :
+  decl_ok frac_args = true /\ servo_ctor frac_args = inl frac_host /\
+  (exists d, ds_decl frac_args = Some (d, [SAttach 9 545 2400; SWriteMicros 9 545]) /\
+     snd (dsrun d [SReadUs; SWrite (PI 90); SReadUs]) = [SGFloat (1089 # 2); SGNone; SGFloat (5889 # 4)] /\
+     snd (fst (hsrun 9 frac_host [SReadUs; SWrite (PI 90); SReadUs])) = snd (dsrun d [SReadUs; SWrite (PI 90); SReadUs]) /\
+     fst (dsrun d [SReadUs; SWrite (PI 90); SReadUs]) = [SWriteDeg 9 90]).
+Proof. exact servo_fractional_bound_agrees. Qed.
+Print Assumptions C04_servo_fractional_pulse_bound_agrees.
 
 (* non-vacuity: a custom calibration with a negative minimum angle and an in-guard history through every command *)
 Example C04_servo_guard_inhabited :
   decl_ok demo_args = true /\ servo_ctor demo_args = inl demo_host /\
   forallb (fun b => b) (servo_range_flags demo_host demo_sops) = true /\
-  forallb servo_level_ok demo_sops = true /\
   fst (fst (hsrun 10 demo_host demo_sops)) = [SWriteDeg 10 91; SWriteMicros 10 1450; SWriteDeg 10 1; SWriteDeg 10 0].
 Proof. exact servo_demo_agrees. Qed.
 Print Assumptions C04_servo_guard_inhabited.
